@@ -63,8 +63,15 @@ std::string fmtDouble(double d)
     if (std::isnan(d)) {
         return "nan";
     }
+    // shortest representation that reads back as the same double (a projection that rounded to 15 digits would hide
+    // a loss of precision in the library)
     char buf[64];
-    snprintf(buf, sizeof buf, "%.15g", d);
+    for (int prec = 15; prec <= 17; ++prec) {
+        snprintf(buf, sizeof buf, "%.*g", prec, d);
+        if (strtod(buf, nullptr) == d) {
+            break;
+        }
+    }
     return buf;
 }
 
